@@ -1,8 +1,9 @@
 SPECIFICATION Spec
 CONSTANTS
-  Kinds = {"lambda", "closure", "rec", "cinst", "inst", "ccls", "cls", "icinst", "icls"}
+  Kinds = {"lambda", "closure", "rec", "cinst", "inst", "ccls", "cls", "icinst", "icls", "sinst", "bufinst"}
   MaxSt = 2
   MaxDepth = 2
+  Protos = {0, 2, 4, 5}
   MaxSteps = 5
 INVARIANT StBounded
 PROPERTY ArrivalRule
